@@ -31,6 +31,7 @@ VARIABLES phase, sep, hk, shape, cells, text, aux
 vars == <<phase, sep, hk, shape, cells, text, aux>>
 
 \* ---- the cell alphabet ----
+QRun(n) == [i \in 1..n |-> QUOTE]
 CellOf(c, s) ==
   CASE c = "empty"    -> <<>>
     [] c = "plain"    -> <<120>>                    \* x
@@ -52,6 +53,19 @@ CellOf(c, s) ==
     [] c = "xqqqy"    -> <<120, QUOTE, QUOTE, QUOTE, 121>>
     [] c = "tailqq"   -> <<120, QUOTE, QUOTE>>
     [] c = "headqq"   -> <<QUOTE, QUOTE, 120>>
+    \* long runs of quotes around the 8-bit thresholds of a per-field quote counter: a value with n quotes is rendered
+    \* with 2n + 2 quote characters (127 -> 256, 128 -> 258, 255 -> 512); run-length form, built in one step
+    [] c = "q126"     -> QRun(126)
+    [] c = "q127"     -> QRun(127)
+    [] c = "q128"     -> QRun(128)
+    [] c = "q129"     -> QRun(129)
+    [] c = "q254"     -> QRun(254)
+    [] c = "q255"     -> QRun(255)
+    [] c = "q256"     -> QRun(256)
+    [] c = "xq127y"   -> <<120>> \o QRun(127) \o <<121>>
+    [] c = "xq128y"   -> <<120>> \o QRun(128) \o <<121>>
+    [] c = "xq255y"   -> <<120>> \o QRun(255) \o <<121>>
+    [] c = "q100xq27" -> QRun(100) \o <<120>> \o QRun(27)
     [] c = "long"     -> [i \in 1..23 |-> 97 + (i % 26)]
 
 \* "prefix": every name is a proper prefix of the following ones (a, ab, abc, abcd); "prefixrev": the same names, longest first
